@@ -896,6 +896,9 @@ pub fn run_trace(trace: &Trace, ctx: &mut Ctx) -> RunOutcome {
                     _ => continue,
                 };
                 let n = &nodes[*node];
+                // value-dependent alterations ("plus1", "alias:k") are resolved against the message they alter
+                let alter_a = &crate::e2gen::resolve_alter(alter_a, &ma.bytes, Some(&mb.bytes)).unwrap_or_else(|| alter_a.clone());
+                let alter_b = &crate::e2gen::resolve_alter(alter_b, &mb.bytes, Some(&ma.bytes)).unwrap_or_else(|| alter_b.clone());
                 let ia = altered_input(&ma.bytes, &ma.signal, alter_a, true);
                 let ib = altered_input(&mb.bytes, &mb.signal, alter_b, true);
                 let mut out = Vec::new();
@@ -1039,6 +1042,17 @@ pub fn run_trace(trace: &Trace, ctx: &mut Ctx) -> RunOutcome {
                             viol!("C12", si, step, "unsatisfiable_request_proved", format!("entry {entry}: id {} limit {} (path_len {path_len}, dir_tweak {dir_tweak}) proved and verified", fr_to_json(id), fr_to_json(limit)));
                         } else {
                             ctx.counters.inc("reach.prove_ok_verified");
+                            // a request that is valid for the prover's current tree: the message must also be accepted
+                            // against that tree (a proof for a root the tree no longer has is not one verification accepts)
+                            if satisfiable && bytes.len() >= 288 {
+                                let input = enc_verify_input(&bytes[..288], signal);
+                                let (v1, d1) = call_verify(n, 1, &input, &[], &ReadPlan::clean(), ctx);
+                                ctx.deliveries += 1;
+                                if v1 != Verdict::True {
+                                    viol!("C12", si, step, "ok_but_rejected_by_own_tree", format!("entry {entry}: proving returned Ok for a request valid in the prover's current tree (index {index}), raw verify accepts the proof, verify_rln_proof on the same instance = {:?} {d1}", v1));
+                                }
+                                ctx.counters.inc("reach.prove_ok_accepted_by_own_tree");
+                            }
                         }
                     }
                 }
